@@ -69,16 +69,17 @@ class Fold(Harness):
             return {'exc': base['ret'] if isinstance(base['ret'], Exc) else alt['ret']}
         parsed = OL.parse_alg_lines(base['lines'])
         jd = OL.run_output(M, L, json=True, client=self.client)
-        jl = []
+        jl, jl_lenient = [], []
         if not isinstance(jd['ret'], Exc):
             for c in OL.CATS:
                 for e in jd['doc'][c]:
                     n = e['notes']
-                    if n.get('fail') == ['using unknown algorithm']:
-                        jl.append('warn')      # unknown names: JSON words it as a failure, the status counts a warning (as the text report does)
-                        continue
                     jl += ['fail'] * len(n.get('fail', [])) + ['warn'] * len(n.get('warn', []))
-        return {'ret': base['ret'], 'alt': alt['ret'], 'levels': [l for _, _, l, _ in parsed], 'json_levels': jl, 'json_ret': jd['ret']}
+                    if n.get('fail') == ['using unknown algorithm']:
+                        jl_lenient.append('warn')      # reading the JSON note of an unknown name as the warning that the text report shows for it
+                    else:
+                        jl_lenient += ['fail'] * len(n.get('fail', [])) + ['warn'] * len(n.get('warn', []))
+        return {'ret': base['ret'], 'alt': alt['ret'], 'levels': [l for _, _, l, _ in parsed], 'json_levels': jl, 'json_levels_lenient': jl_lenient, 'json_ret': jd['ret']}
 
     def check(self, inp, obs):
         if 'exc' in obs:
@@ -97,6 +98,14 @@ class Fold(Harness):
         known_hit = obs['ret'] != mixwant
         # a symbolic 2-char name could coincide with a real table key; only then may the status differ from the mix
         yield 'status==mix', (obs['ret'] == mixwant) or known_hit and any(k == 'U' for k in flat)
+
+    def classify(self, inp, obs, label):
+        if label == 'json-status==fold-of-json-notes' and 'json_levels_lenient' in obs:
+            jl = obs['json_levels_lenient']
+            if obs['json_ret'] == (3 if 'fail' in jl else (2 if 'warn' in jl else 0)):
+                # the only discrepancy: the JSON document words an unknown algorithm as a failure while text report and exit status count a warning
+                return 'json-words-an-unknown-algorithm-as-a-failure-while-the-status-counts-a-warning'
+        return label
 
 
 class Broken(Harness):
